@@ -1233,7 +1233,51 @@ func (c *FCtx) evalBuiltin(st *State, name string, call *ast.CallExpr) []Val {
 		}
 		return []Val{SV{n, types.Typ[types.Int]}}
 	case "append":
-		fail("append is outside the supported subset")
+		// append(s, t...) / append(s, e1, e2, ...) on integer-element slices whose capacity equals their length (a
+		// full slice, for instance x[:] of an array): Go allocates a new backing array, so the result is a fresh
+		// buffer holding s followed by the appended elements and nothing else is written.  A slice with spare
+		// capacity would be extended in place; that case is outside the supported subset.
+		base, ok := c.eval(st, call.Args[0]).(LV)
+		if !ok || base.Str {
+			fail("append to a value that is not a modelled slice")
+		}
+		if _, isBasic := base.Elem.Underlying().(*types.Basic); !isBasic {
+			fail("append to a slice of %s is outside the supported subset", base.Elem)
+		}
+		if !sameTerm(base.Len, base.Cap) {
+			fail("append to a slice with spare capacity is outside the supported subset")
+		}
+		baseMem := c.memTerm(st, base)
+		nt := Sym(c.freshName("append"), SArr(SInt))
+		q := Sym(c.freshName("q"), SInt)
+		total := base.Len
+		st.assume(Forall([]*Term{q}, Implies(And(Le(Num(0), q), Lt(q, base.Len)), Eq(Select(nt, q), Select(baseMem, Add(base.Off, q)))), Select(nt, q)))
+		if call.Ellipsis.IsValid() {
+			src, ok := c.eval(st, call.Args[1]).(LV)
+			if !ok || src.Str {
+				fail("append of a spread value that is not a modelled slice")
+			}
+			srcMem := c.memTerm(st, src)
+			q2 := Sym(c.freshName("q"), SInt)
+			st.assume(Forall([]*Term{q2}, Implies(And(Le(base.Len, q2), Lt(q2, Add(base.Len, src.Len))), Eq(Select(nt, q2), Select(srcMem, Add(src.Off, Sub(q2, base.Len))))), Select(nt, q2)))
+			total = Add(base.Len, src.Len)
+		} else {
+			for k, a := range call.Args[1:] {
+				v, ok := c.eval(st, a).(SV)
+				if !ok {
+					fail("append of a non-scalar element")
+				}
+				st.assume(Eq(Select(nt, Add(base.Len, Num(int64(k)))), v.T))
+			}
+			total = Add(base.Len, Num(int64(len(call.Args)-1)))
+		}
+		q3 := Sym(c.freshName("q"), SInt)
+		st.assume(Forall([]*Term{q3}, And(typeFacts(Select(nt, q3), base.Elem), Implies(Or(Lt(q3, Num(0)), Ge(q3, total)), Eq(Select(nt, q3), Num(0)))), Select(nt, q3)))
+		goal := Le(total, NumB(maxMake))
+		c.oblige(st, "safety", "append-size "+c.exprStr(call), goal, c.eng.pos(call))
+		st.assume(goal)
+		cell := c.newCell(st, MV{nt, base.Elem})
+		return []Val{LV{Cell: cell, Off: Num(0), Len: total, Cap: total, Elem: base.Elem, IsNil: False(), Typ: c.info.TypeOf(call)}}
 	case "panic":
 		fail("panic in expression position")
 	case "new":
